@@ -175,6 +175,44 @@ def check_generate(ctx, cfg, key, boxed, rule="C08.G"):
             cdet = "closure calls F exactly once: %s, with the enumerate index: %s, and writes the result into the paired slot: %s" % (once, args_ok, w_ok)
         ok = shape and arr_ok and c_ok and not bad_adaptors(pipe)
         det = "for_each(enumerate(iter_mut over the builder's whole array [0, N))): %s/%s; no reordering adaptor: %s; %s" % (shape, arr_ok, not bad_adaptors(pipe), cdet)
+    # completeness: the judged traversal is what every call of generate runs - each return is reached only through its driver, or on a path whose
+    # facts say there is no index to visit (N == 0). An early return under any other condition (a zero-SIZED array is not a zero-LENGTH one)
+    # skips calls of F that the statement promises
+    drv_bb = None
+    if len(fe) == 1:
+        drv_bb = fe[0].bb
+    elif not fe and len(ext) == 1:
+        drv_bb = ext[0].bb
+    elif not fe:
+        from ..loops import find_loops
+        lps_ = [lp for lp in find_loops(an) if lp.slot_ptrs()]
+        drv_bb = lps_[0].nxt.bb if len(lps_) == 1 else None
+    if ok and drv_bb is not None:
+        # paths from the entry to a return that avoid the driver, each with the facts of its own edges (a merged return block forgets them)
+        rets = {r["bb"] for r in an.returns}
+        skipped, npaths = [], [0]
+
+        def walk(bb, facts, seen):
+            if npaths[0] > 4000 or skipped:
+                return
+            if bb in rets:
+                npaths[0] += 1
+                if not an.prove(facts, "Eq", N, Poly.const(0)):
+                    skipped.append(facts)
+                return
+            for s2 in an.edges.get(bb, []):
+                if s2 == drv_bb or s2 in seen or an.blocks[s2]["cleanup"]:
+                    continue
+                fs_ = an.edge_facts.get((bb, s2)) or [frozenset()]
+                for f_ in fs_:
+                    walk(s2, facts | set(f_), seen | {s2})
+        if drv_bb != 0:
+            walk(0, set(), {0})
+        if skipped or npaths[0] > 4000:
+            ok = False
+            det += "; but a return is reached without passing the traversal although N == 0 is not known on that path (facts %s): F is not called for every index" % (fstr(skipped[0]) if skipped else "path enumeration cut off")
+        else:
+            det += "; every return passes the traversal (or N == 0 is known on its path; %d such path(s))" % npaths[0]
     ctx.ob(rule, key, ok, det, at=b["at"], cfg=cfg)
     ctx.sample({"rule": rule, "fn": key, "cfg": cfg, "detail": det})
     return 1
